@@ -7,8 +7,27 @@
            bytes with the regenerated tables/structs = correspondence (this one includes reg_order and dict key order)
   instrs : instruction lists alone, with arbitrary bytes before and after → CallFrameInfo._parse_instructions
   raw    : well-formed sections damaged by byte edits / truncation → library vs model, errors included
+  bad    : the malformed classes the property names, made from `sec` cases by STRUCTURED damage with a predicted outcome
+           (theorems `bad_*`): unknown opcode appended inside the last entry → DWARFError; length field of the last entry
+           claiming more than the data → ELFParseError; data cut inside the last entry's instructions → ELFParseError;
+           CIE pointer out of range → ELFParseError (.debug_frame) / ValueError (.eh_frame); CIE pointer designating another
+           FDE → accepted, `fde.cie` is that FDE; 'z' of a CIE augmentation replaced → AssertionError; a later augmentation
+           letter replaced by an unknown one (CIE-only sections) → the letters before it decide `augmentation_dict`;
+           every case also library == model
+  setloc : `.eh_frame` instruction lists with DW_CFA_set_loc as the LSB encodes them (operand under the FDE pointer encoding;
+           Spec/CFIEhSetLoc.lean) → library vs model on every case; under plain absptr the split must be the Spec's
+           (`set_loc_eh_absptr`); in the excluded class with an operand as wide as an address the opcodes must be the LSB's
+           and every set_loc operand the raw unsigned field (`set_loc_reads_target_addr`); other widths: the known finding
+           eh-set-loc-encoding manifests (counted, never reported)
+  file   : whole ELF files (elfbuild) carrying a `.debug_frame` and/or an `.eh_frame` of the `sec` stream — stored plainly,
+           gABI-compressed (SHF_COMPRESSED + Elf_Chdr) or, for `.debug_frame` in a file with `.zdebug_info`, in the legacy
+           `.zdebug_frame` framing; `sh_addr` = the section address; decoy sections of the same name before the real one —
+           through ELFFile(BytesIO(bytes)).get_dwarf_info().has_CFI/has_EH_CFI/CFI_entries/EH_CFI_entries (in varying
+           order on ONE DWARFInfo), compared with the Spec observation (= property, `cfi_entries_of_file`,
+           `eh_cfi_entries_of_file`, `has_cfi_of_file`) and with the composed model `fileCfiEntries` … run on the file
+           bytes with the regenerated bundles (= correspondence); zlib is an oracle table recorded from the run
 """
-import io
+import io, struct, zlib
 from common import run_impl, canon, hx, rnd_uint, rnd_bytes, BOUNDARY
 
 RULE = ('sec: 1-12 entries (quick: 1-7), .debug_frame (CIE v1/3/4, DWARF32/64, any order incl. FDE before its CIE) or .eh_frame '
@@ -529,9 +548,492 @@ def run_both(ctx, keep):
             ctx.out.violation('property', 'both', case, expect=want, got=impl)
 
 
+# ----------------------------------------------------------------------------- whole files
+class ZRec:
+    """zlib stand-in that records every decompressobj conversation: (all input fed, max_length) -> all output / None on error"""
+    error = zlib.error
+
+    def __init__(self):
+        self.table = {}
+
+    def decompressobj(self, *a, **k):
+        rec = self
+
+        class Obj:
+            def __init__(self):
+                self.o = zlib.decompressobj(*a, **k)
+                self.inp, self.out, self.k = b'', b'', 0
+
+            def decompress(self, data, max_length=0):
+                self.inp += bytes(data)
+                self.k = max_length
+                try:
+                    r = self.o.decompress(data, max_length)
+                except zlib.error:
+                    rec.table[(self.inp, max_length)] = None
+                    raise
+                self.out += r
+                rec.table[(self.inp, max_length)] = self.out
+                return r
+
+            def flush(self, *aa):
+                r = self.o.flush(*aa)
+                self.out += r
+                rec.table[(self.inp, self.k)] = self.out
+                return r
+
+            def __getattr__(self, n):
+                return getattr(self.o, n)
+        return Obj()
+
+    def __getattr__(self, n):
+        return getattr(zlib, n)
+
+
+def with_zrec(fn):
+    """run fn() with the recording zlib installed in the modules that inflate sections; returns (result, table).
+    ASSUMPTION check: every recorded conversation (chunks + flush) gives what ONE call on the whole input gives."""
+    import elftools.elf.sections as S, elftools.elf.elffile as E
+    rec = ZRec()
+    o1, o2 = S.zlib, E.zlib
+    S.zlib = E.zlib = rec
+    try:
+        res = fn()
+    finally:
+        S.zlib, E.zlib = o1, o2
+    for (inp, k), out in rec.table.items():
+        try:
+            o = zlib.decompressobj()
+            r = o.decompress(inp, k)
+            if k == 0:
+                r += o.flush()
+        except zlib.error:
+            r = None
+        if r != out:
+            raise AssertionError('zlib streaming assumption violated on %d input bytes (max_length %d)' % (len(inp), k))
+    return res, rec.table
+
+
+def deflate(rng, body):
+    d = zlib.compress(body, rng.choice([0, 1, 6, 9]))
+    for k in (0, len(body) + 1):                 # ZlibOk of the theorems
+        if zlib.decompressobj().decompress(d, k) != body:
+            raise AssertionError('zlib round-trip assumption violated')
+    return d
+
+
+def chdr(cls, le, size, align):
+    e = '<' if le else '>'
+    return struct.pack(e + 'III', 1, size, align) if cls == 32 else struct.pack(e + 'IIQQ', 1, 0, size, align)
+
+
+def zframe(rng, body):
+    return b'ZLIB' + struct.pack('>Q', len(body)) + deflate(rng, body)
+
+
+D_MODES = ['plain', 'plain', 'gabi', 'zdebug', 'zdebug', 'hidden', 'absent']
+E_MODES = ['plain', 'plain', 'gabi', 'absent']
+
+
+def build_file(rng, cls, le, dbg, eh, mode_d, mode_e):
+    """dbg / eh: (section bytes, address) or None.  Returns the file bytes."""
+    import elfbuild as EB
+    img = EB.ElfImage(cls=cls, le=le, e_type=rng.choice([EB.ET_REL, EB.ET_EXEC, EB.ET_DYN]),
+                      e_machine=rng.choice([EB.EM_X86_64, EB.EM_386, EB.EM_ARM, EB.EM_AARCH64, EB.EM_MIPS, EB.EM_PPC64,
+                                            EB.EM_RISCV, EB.EM_S390]))
+    parts = []          # (name, type, data, flags, addr)
+    legacy = mode_d in ('zdebug', 'hidden')
+    if legacy:
+        parts.append(('.zdebug_info', EB.SHT_PROGBITS, zframe(rng, rnd_bytes(rng, rng.choice([0, 1, 11, 40]))), 0, 0))
+    elif rng.random() < 0.6:
+        parts.append(('.debug_info', EB.SHT_PROGBITS, rnd_bytes(rng, rng.choice([0, 1, 11, 40])), 0, 0))
+    if rng.random() < 0.5:
+        parts.append(('.text', EB.SHT_PROGBITS, rnd_bytes(rng, rng.choice([1, 16, 64])), 6, 0x1000))
+    if dbg is not None and mode_d != 'absent':
+        body, addr = dbg
+        name = '.zdebug_frame' if mode_d == 'zdebug' else '.debug_frame'
+        if rng.random() < 0.15:             # decoy: get_section_by_name takes the LAST section of a name
+            parts.append((name, EB.SHT_PROGBITS, rnd_bytes(rng, rng.choice([4, 24, 50])), 0, 0))
+        if mode_d == 'gabi':
+            parts.append((name, EB.SHT_PROGBITS, chdr(cls, le, len(body), rng.choice([1, 4, 8])) + deflate(rng, body), EB.SHF_COMPRESSED, addr))
+        elif mode_d == 'zdebug':
+            parts.append((name, EB.SHT_PROGBITS, zframe(rng, body), 0, addr))
+        else:                               # 'plain'; 'hidden': a plain .debug_frame in a .zdebug_info file is not looked up
+            parts.append((name, EB.SHT_PROGBITS, body, 0, addr))
+    if eh is not None and mode_e != 'absent':
+        body, addr = eh
+        if rng.random() < 0.15:
+            parts.append(('.eh_frame', EB.SHT_PROGBITS, rnd_bytes(rng, rng.choice([4, 24, 50])), 2, 0))
+        if mode_e == 'gabi':
+            parts.append(('.eh_frame', EB.SHT_PROGBITS, chdr(cls, le, len(body), rng.choice([1, 4, 8])) + deflate(rng, body), 2 | EB.SHF_COMPRESSED, addr))
+        else:
+            parts.append(('.eh_frame', EB.SHT_PROGBITS, body, 2, addr))
+    # the relative order of same-named sections (decoy first) is kept; everything else is shuffled around them
+    order = list(range(len(parts)))
+    rng.shuffle(order)
+    seen = {}
+    for i in sorted(order, key=lambda i: order[i]):
+        seen.setdefault(parts[i][0], []).append(i)
+    slots = sorted(range(len(parts)), key=lambda i: order[i])
+    fixed = []
+    taken = {n: 0 for n in seen}
+    for i in slots:
+        n = parts[i][0]
+        fixed.append(sorted(seen[n])[taken[n]])
+        taken[n] += 1
+    for i in fixed:
+        n, t, data, fl, addr = parts[i]
+        img.add_section(n, t, data=data, flags=fl, addr=addr, addralign=rng.choice([1, 1, 4, 8]))
+    return img.build()
+
+
+def impl_file(data, order, relocate, follow):
+    """the four accessors on ONE DWARFInfo, called in the given order (d/e = entries, D/E = has_*); every call is recorded
+    and the calls of one accessor must agree"""
+    from elftools.elf.elffile import ELFFile
+    di = ELFFile(io.BytesIO(data)).get_dwarf_info(relocate_dwarf_sections=relocate, follow_links=follow)
+    acc = {'d': lambda: [canon_entry(e) for e in di.CFI_entries()], 'e': lambda: [canon_entry(e) for e in di.EH_CFI_entries()],
+           'D': lambda: bool(di.has_CFI()), 'E': lambda: bool(di.has_EH_CFI())}
+    key = {'d': 'cfi', 'e': 'eh', 'D': 'has_cfi', 'E': 'has_eh'}
+    out = {}
+    for o in order:
+        r = run_impl(acc[o])
+        if key[o] in out and out[key[o]] != r:
+            return {'unstable': key[o], 'first': out[key[o]], 'then': r}
+        out[key[o]] = r
+    return out
+
+
+FILE_ORDERS = ['DEde', 'EDed', 'deDE', 'edED', 'DdEe', 'eEdD', 'DEdede', 'EDeded']
+
+
+def file_expect(case, rd, re_):
+    """what the property prescribes for the file: per accessor"""
+    vis_d = case['dbg'] is not None and case['mode_d'] in ('plain', 'gabi', 'zdebug')
+    vis_e = case['eh'] is not None and case['mode_e'] in ('plain', 'gabi')
+    want = {'has_cfi': {'ok': vis_d}, 'has_eh': {'ok': vis_e}}
+    want['cfi'] = {'ok': strip_order(rd['expect'], rd['expect'])} if vis_d else {'err': 'attributeError'}
+    want['eh'] = {'ok': strip_order(re_['expect'], re_['expect'])} if vis_e else {'err': 'attributeError'}
+    return want
+
+
+def file_got(impl, rd, re_):
+    got = dict(impl)
+    for k, r in (('cfi', rd), ('eh', re_)):
+        if isinstance(got.get(k), dict) and 'ok' in got[k] and r is not None:
+            got[k] = {'ok': strip_order(got[k]['ok'], r['expect'])}
+    return got
+
+
+def file_request(case, table):
+    return {'p': 'C06', 'k': 'file', 'hex': case['hex'], 'relocate': case['relocate'], 'follow': case['follow'],
+            'zlib': [[hx(d), k, None if o is None else hx(o)] for (d, k), o in table.items()]}
+
+
+def judge_file(ctx, case, rd, re_, impl, model, report=True):
+    """returns (property_fails, correspondence_fails)"""
+    want = file_expect(case, rd, re_)
+    got = file_got(impl, rd, re_)
+    pf = got != want
+    cf = impl != model
+    if report:
+        if pf:
+            ctx.out.violation('property', 'file', case, expect=want, got=got, model=model)
+        elif cf:
+            ctx.out.violation('correspondence', 'file', case, got=impl, model=model)
+    return pf, cf, want, got
+
+
+def run_file(ctx, keep):
+    rng = ctx.rng('file')
+    dbgs = [(s, r) for s, r in keep if r.get('wf') and not s['eh'] and s['address'] < (1 << (8 * s['asz']))]
+    ehs = [(s, r) for s, r in keep if r.get('wf') and s['eh'] and s['address'] < (1 << (8 * s['asz']))]
+    if not dbgs or not ehs:
+        return
+    cases, reqs, aux = [], [], []
+    for _ in range(ctx.budget(160, 4000)):
+        sd, rd = rng.choice(dbgs)
+        cands = [(s, r) for s, r in ehs if s['le'] == sd['le'] and s['asz'] == sd['asz']]
+        if not cands:
+            continue
+        se, re_ = rng.choice(cands)
+        mode_d, mode_e = rng.choice(D_MODES), rng.choice(E_MODES)
+        cls, le = 8 * sd['asz'], sd['le']
+        data = build_file(rng, cls, le, (bytes.fromhex(rd['bytes']), sd['address']), (bytes.fromhex(re_['bytes']), se['address']),
+                          mode_d, mode_e)
+        case = {'hex': hx(data), 'dbg': {'sec': sd, 'bytes': rd['bytes']}, 'eh': {'sec': se, 'bytes': re_['bytes']},
+                'mode_d': mode_d, 'mode_e': mode_e, 'order': rng.choice(FILE_ORDERS), 'relocate': rng.random() < 0.7,
+                'follow': rng.random() < 0.7}
+        impl, table = with_zrec(lambda: impl_file(data, case['order'], case['relocate'], case['follow']))
+        cases.append(case)
+        aux.append((rd, re_, impl))
+        reqs.append(file_request(case, table))
+    replies = ask_all(ctx, reqs)
+    for case, (rd, re_, impl), model in zip(cases, aux, replies):
+        if 'fatal' in model:
+            raise RuntimeError('driver: %s on file case' % model['fatal'])
+        model = {k: model[k] for k in ('has_cfi', 'has_eh', 'cfi', 'eh')}
+        ctx.out.count('file:dbg=%s' % case['mode_d'])
+        ctx.out.count('file:eh=%s' % case['mode_e'])
+        ctx.out.count('file:cls%d:%s' % (8 * case['dbg']['sec']['asz'], 'le' if case['dbg']['sec']['le'] else 'be'))
+        ctx.out.count('file:order=%s' % case['order'])
+        ctx.out.case({'hex': case['hex'], 'order': case['order']})
+        judge_file(ctx, case, rd, re_, impl, model)
+
+
+# ----------------------------------------------------------------------------- structured malformed sections
+UNKNOWN_OPS = [x for x in range(0x17, 0x40) if x not in (0x2d, 0x2e)]
+
+
+def entry_spans(data, expect):
+    """[(offset, size, is64, kind)] of the entries of a well-formed section, from the Spec observation"""
+    out = []
+    for e in expect:
+        d = dict((k, v) for k, v in e['r'])
+        off = d['offset']
+        if d['kind'] == 'ZERO':
+            out.append((off, 4, False, 'ZERO'))
+            continue
+        is64 = data[off:off + 4] == b'\xff\xff\xff\xff'
+        ln = dict((k, v) for k, v in d['header']['r'])['length']
+        out.append((off, ln + (12 if is64 else 4), is64, d['kind']))
+    return out
+
+
+def set_length(b, off, is64, le, value):
+    if is64:
+        b[off + 4:off + 12] = value.to_bytes(8, 'little' if le else 'big')
+    else:
+        b[off:off + 4] = value.to_bytes(4, 'little' if le else 'big')
+
+
+def get_length(b, off, is64, le):
+    return int.from_bytes(b[off + 4:off + 12] if is64 else b[off:off + 4], 'little' if le else 'big')
+
+
+def make_bad(rng, s, r):
+    """(class, damaged bytes, predicted outcome or None, extra) — None when the class does not apply to this section"""
+    data = bytes.fromhex(r['bytes'])
+    le, eh = s['le'], s['eh']
+    spans = entry_spans(data, r['expect'])
+    nz = [i for i, sp in enumerate(spans) if sp[3] != 'ZERO']
+    if not nz:
+        return None
+    last = nz[-1]
+    off, size, is64, kind = spans[last]
+    ninstr = len(dict((k, v) for k, v in r['expect'][last]['r'])['instructions'])
+    cls = rng.choice(['unknown-opcode', 'length-past', 'cut', 'cie-pointer-range', 'cie-pointer-fde', 'aug-not-z', 'aug-letter'])
+    b = bytearray(data)
+    if cls == 'unknown-opcode':
+        ln = get_length(b, off, is64, le)
+        if not is64 and ln + 1 >= 0xfffffff0:
+            return None
+        b[off + size:off + size] = bytes([rng.choice(UNKNOWN_OPS)])
+        set_length(b, off, is64, le, ln + 1)
+        return cls, bytes(b), {'err': 'dwarfError'}, None
+    if cls == 'length-past':
+        b = b[:off + size]                            # the entry is the last thing in the data
+        ln = get_length(b, off, is64, le)
+        delta = rng.choice([1, 1, 2, 3, 100, 0x1000])
+        if not is64 and ln + delta >= 0xfffffff0:
+            return None
+        set_length(b, off, is64, le, ln + delta)
+        return cls, bytes(b), {'err': 'elfParseError'}, None
+    if cls == 'cut':
+        if ninstr == 0:
+            return None
+        k = rng.randrange(1, ninstr + 1)              # every instruction has at least one byte: the cut stays inside the instructions
+        return cls, bytes(b[:off + size - k]), {'err': 'elfParseError'}, None
+    fdes = [i for i in nz if spans[i][3] == 'FDE']
+    if cls == 'cie-pointer-range':
+        if not fdes:
+            return None
+        j = rng.choice(fdes)
+        o, _, f64, _ = spans[j]
+        po, pn = (o + 12, 8) if f64 else (o + 4, 4)
+        if eh:
+            lo = po + 1                               # distance back larger than the offset of the pointer field
+            v = rng.choice([lo, lo + 1, lo + rng.randrange(1, 1000), 0xffffffff, 0x80000000])
+            want = {'err': 'valueError'}
+        else:
+            top = (1 << (8 * pn)) - 2                 # all-ones is the CIE id
+            v = rng.choice([len(b), len(b) + 1, len(b) + rng.randrange(1, 1000), top, top - 7] + ([1 << 63, (1 << 63) - 1] if f64 else []))
+            want = {'err': 'elfParseError'}
+        b[po:po + pn] = v.to_bytes(pn, 'little' if le else 'big')
+        return cls, bytes(b), want, None
+    if cls == 'cie-pointer-fde':
+        if eh or len(fdes) < 2:
+            return None
+        j, m = rng.sample(fdes, 2)
+        o, _, f64, _ = spans[j]
+        po, pn = (o + 12, 8) if f64 else (o + 4, 4)
+        b[po:po + pn] = spans[m][0].to_bytes(pn, 'little' if le else 'big')
+        return cls, bytes(b), None, {'fde': j, 'target': spans[m][0]}
+    # augmentation classes: CIEs of `.eh_frame` with a 'z…' string; the string starts at offset + 4 + 4 + 1
+    cies = [i for i in nz if spans[i][3] == 'CIE' and s['entries'][i]['aug'] is not None]
+    if not eh or not cies:
+        return None
+    i = rng.choice(cies)
+    so = spans[i][0] + 9
+    letters = ['z'] + [it[0] for it in s['entries'][i]['aug']]
+    assert bytes(b[so:so + len(letters)]) == ''.join(letters).encode(), 'augmentation string not where expected'
+    if cls == 'aug-not-z':
+        b[so] = rng.choice(b'yZxb')
+        return cls, bytes(b), {'err': 'assertion'}, None
+    if len(letters) < 2 or any(sp[3] == 'FDE' for sp in spans):
+        return None                                   # CIE-only sections: the FDEs of a damaged CIE are read with other encodings
+    k = rng.randrange(1, len(letters))
+    b[so + k] = rng.choice(b'XBGeh')
+    keys = {'z': 'length', 'L': 'LSDA_encoding', 'R': 'FDE_encoding', 'P': 'personality', 'S': 'True'}
+    return cls, bytes(b), None, {'cie': i, 'keys': sorted(keys[c] for c in letters[:k])}
+
+
+def judge_bad(cls, impl, want, extra, orig):
+    """None, or what is wrong with the library's answer according to the class's theorem"""
+    if want is not None:
+        return None if impl == want else {'expect': want}
+    if 'ok' not in impl:
+        return {'expect': 'no error'}
+    if cls == 'cie-pointer-fde':
+        d = dict((k, v) for k, v in impl['ok'][extra['fde']]['r'])
+        return None if d.get('kind') == 'FDE' and d.get('cie') == extra['target'] else {'expect': {'cie': extra['target']}}
+    d = dict((k, v) for k, v in impl['ok'][extra['cie']]['r'])
+    o = dict((k, v) for k, v in orig[extra['cie']]['r'])
+    got = sorted(k for k, _ in d['aug_dict']['r'])
+    if got != extra['keys'] or d['instructions'] != o['instructions'] or d['aug_bytes'] != o['aug_bytes']:
+        return {'expect': {'aug_dict keys': extra['keys'], 'instructions': o['instructions'], 'aug_bytes': o['aug_bytes']}}
+    return None
+
+
+def run_bad(ctx, keep):
+    rng = ctx.rng('bad')
+    pool = [(s, r) for s, r in keep if r['wf'] and len(r['bytes']) >= 16]
+    # CIE-only `.eh_frame` sections for the augmentation-letter class
+    extra_secs = []
+    for _ in range(ctx.budget(40, 600)):
+        asz = rng.choice([4, 8])
+        ents = []
+        for _ in range(rng.choice([1, 1, 2, 3])):
+            while True:
+                c, _ = g_cie(rng, True, asz, 10)
+                if c['aug']:
+                    break
+            ents.append(c)
+        extra_secs.append({'eh': True, 'le': rng.random() < 0.6, 'asz': asz, 'address': rng.choice([0, 0x1000, 0x400000]), 'entries': ents})
+    for s, r in zip(extra_secs, ask_all(ctx, [{'p': 'C06', 'k': 'ast', 'sec': s} for s in extra_secs])):
+        if r.get('wf'):
+            pool.append((s, r))
+    cieonly = [(s, r) for s, r in pool if s['eh'] and all(e['t'] == 'cie' and e['aug'] for e in s['entries'])]
+    made = []
+    for _ in range(ctx.budget(420, 9000)):
+        s, r = rng.choice(cieonly) if cieonly and rng.random() < 0.12 else rng.choice(pool)
+        m = None
+        for _try in range(5):                         # a class that applies to this section
+            m = make_bad(rng, s, r)
+            if m is not None:
+                break
+        if m is None:
+            ctx.out.count('bad:class-not-applicable')
+            continue
+        made.append((s, r, m))
+    reqs = [{'p': 'C06', 'k': 'raw', 'eh': s['eh'], 'le': s['le'], 'asz': s['asz'], 'address': s['address'], 'hex': hx(m[1])}
+            for s, r, m in made]
+    for (s, r, (cls, data, want, extra)), rq, rep in zip(made, reqs, ask_all(ctx, reqs)):
+        if 'fatal' in rep:
+            raise RuntimeError('driver: %s on %r' % (rep['fatal'], rq))
+        impl = run_impl(lambda: impl_section(data, s['eh'], s['le'], s['asz'], s['address']))
+        model = rep['model']
+        ctx.out.count('bad:' + cls)
+        if impl.get('err') == 'other:RecursionError' or model.get('err') == 'outOfFuel':
+            ctx.out.count('bad:unbounded-recursion-aside')
+            continue
+        case = {'cls': cls, 'sec': s, 'hex': hx(data), 'want': want, 'extra': extra}
+        ctx.out.case({'hex': case['hex'], 'eh': s['eh'], 'le': s['le'], 'asz': s['asz'], 'address': s['address']})
+        wrong = judge_bad(cls, impl, want, extra, r['expect'])
+        if wrong is not None:
+            ctx.out.violation('property', 'bad', case, expect=wrong['expect'], got=impl, model=model)
+        elif impl != model:
+            ctx.out.violation('correspondence', 'bad', case, got=impl, model=model)
+
+
+# ----------------------------------------------------------------------------- DW_CFA_set_loc as the LSB encodes it
+def impl_setloc(rq, r):
+    from elftools.dwarf.callframe import CallFrameInfo
+    from elftools.dwarf.structs import DWARFStructs
+    data = bytes.fromhex(r['bytes'])
+    pre = len(rq['pre']) // 2
+    st = io.BytesIO(data)
+    structs = DWARFStructs(little_endian=rq['le'], dwarf_format=32, address_size=rq['asz'])
+    cfi = CallFrameInfo(st, len(data), 0, structs, for_eh_frame=True)
+    st.seek(pre)
+    ins = cfi._parse_instructions(structs, pre, r['end'])
+    return {'v': [[i.opcode, [canon(a) for a in i.args]] for i in ins], 'pos': st.tell()}
+
+
+def run_setloc(ctx):
+    rng = ctx.rng('setloc')
+    reqs = []
+    for _ in range(ctx.budget(260, 6000)):
+        asz = rng.choice([4, 8])
+        enc = rng.choice([0, 0, 0x10, 0x1b, 0x1b, 0x03, 0x0b, 0x02, 0x0a, 0x04, 0x0c, 0x01, 0x09, 0x11, 0x13, 0x14, 0x19, 0x1c])
+        bits = {0: 8 * asz, 1: 63, 2: 16, 3: 32, 4: 64, 9: 62, 0xa: 15, 0xb: 31, 0xc: 63}[enc & 0x0f]
+        st = PState()
+        ins = [g_instr(rng, asz, st, True, False, True) for _ in range(rng.choice([0, 1, 2, 3, 6, 12]))]
+        for _ in range(rng.choice([1, 1, 2])):
+            ins.insert(rng.randrange(len(ins) + 1), ['set_loc', rnd_uint(rng, rng.choice([4, 8, bits]) if bits > 8 else bits) % (1 << bits)])
+        reqs.append({'p': 'C06', 'k': 'setloc', 'le': rng.random() < 0.6, 'asz': asz, 'enc': enc, 'ins': ins,
+                     'pre': hx(rnd_bytes(rng, rng.choice([0, 0, 3, 17]))), 'rest': hx(rnd_bytes(rng, rng.choice([0, 0, 1, 9])))})
+    for rq, r in zip(reqs, ask_all(ctx, reqs)):
+        if 'fatal' in r:
+            raise RuntimeError('driver: %s on %r' % (r['fatal'], rq))
+        if not r['wf']:
+            ctx.out.count('setloc:not-wf')
+            continue
+        impl = run_impl(lambda: impl_setloc(rq, r))
+        case = {'req': rq, 'bytes': r['bytes']}
+        ctx.out.case(case)
+        ctx.out.count('setloc:enc=%02x' % rq['enc'])
+        wrong = judge_setloc(ctx, rq, r, impl)
+        if wrong is not None:
+            ctx.out.violation('property', 'setloc', case, expect=wrong, got=impl, model=r['model'])
+        elif impl != r['model']:
+            ctx.out.violation('correspondence', 'setloc', case, got=impl, model=r['model'])
+
+
+def judge_setloc(ctx, rq, r, impl, count=True):
+    """None, or what the theorems prescribe and the library does not do"""
+    def c(k):
+        if count:
+            ctx.out.count(k)
+    if not r['in_class']:
+        c('setloc:absptr(split must be the Spec\'s)')
+        want = {'ok': {'v': r['dwarf'], 'pos': r['end']}}
+        return None if impl == want else want
+    if r['same_width']:
+        c('setloc:in-class,address-wide operand(opcodes must be the LSB\'s)')
+        data, asz = bytes.fromhex(r['bytes']), rq['asz']
+        if 'ok' not in impl or [i[0] for i in impl['ok']['v']] != r['lsb_opcodes'] or impl['ok']['pos'] != r['end']:
+            return {'opcodes': r['lsb_opcodes'], 'pos': r['end']}
+        # every set_loc operand is the raw unsigned field: rebuild the positions from the Spec's operand sizes
+        for got, spec in zip(impl['ok']['v'], r['dwarf']):
+            if got[0] == 1:
+                if not (isinstance(got[1][0], int) and 0 <= got[1][0] < (1 << (8 * asz))):
+                    return {'set_loc operand': 'unsigned %d-byte field' % asz}
+            elif got != spec:
+                return {'instruction': spec}
+        return None
+    c('setloc:in-class,other width(finding eh-set-loc-encoding)')
+    if 'ok' not in impl or [i[0] for i in impl['ok']['v']] != r['lsb_opcodes']:
+        c('setloc:mis-split observed')
+    return None
+
+
 def run(ctx):
     keep = run_sec(ctx)
     run_both(ctx, keep)
+    run_file(ctx, keep)
+    run_bad(ctx, keep)
+    run_setloc(ctx)
     run_instrs(ctx)
     run_raw(ctx, keep)
 
@@ -561,6 +1063,32 @@ def replay(ctx, payload):
         impl = run_impl(lambda: impl_both(d, e, sd['le'], sd['asz'], order))
         want = {'ok': [single[o].get('ok') for o in order]}
         res.update(impl=impl, expect=want, fails=(impl != want))
+    elif v['stream'] == 'file':
+        rd = ctx.driver.ask({'p': 'C06', 'k': 'ast', 'sec': case['dbg']['sec']})
+        re_ = ctx.driver.ask({'p': 'C06', 'k': 'ast', 'sec': case['eh']['sec']})
+        data = bytes.fromhex(case['hex'])
+        impl, table = with_zrec(lambda: impl_file(data, case['order'], case['relocate'], case['follow']))
+        model = ctx.driver.ask(file_request(case, table))
+        model = {k: model.get(k) for k in ('has_cfi', 'has_eh', 'cfi', 'eh')}
+        pf, cf, want, got = judge_file(ctx, case, rd, re_, impl, model, report=False)
+        res.update(impl=got, expect=want, model=model, fails=(pf or cf), property_fails=pf)
+    elif v['stream'] == 'setloc':
+        rq = case['req']
+        r = ctx.driver.ask(rq)
+        impl = run_impl(lambda: impl_setloc(rq, r))
+        wrong = judge_setloc(ctx, rq, r, impl, count=False)
+        res.update(impl=impl, expect=wrong, model=r['model'], fails=(wrong is not None or impl != r['model']),
+                   property_fails=(wrong is not None))
+    elif v['stream'] == 'bad':
+        sec = case['sec']
+        data = bytes.fromhex(case['hex'])
+        orig = ctx.driver.ask({'p': 'C06', 'k': 'ast', 'sec': sec})
+        rep = ctx.driver.ask({'p': 'C06', 'k': 'raw', 'eh': sec['eh'], 'le': sec['le'], 'asz': sec['asz'], 'address': sec['address'],
+                              'hex': case['hex']})
+        impl = run_impl(lambda: impl_section(data, sec['eh'], sec['le'], sec['asz'], sec['address']))
+        wrong = judge_bad(case['cls'], impl, case['want'], case['extra'], orig['expect'])
+        res.update(impl=impl, expect=(wrong or {}).get('expect'), model=rep['model'],
+                   fails=(wrong is not None or impl != rep['model']), property_fails=(wrong is not None))
     elif v['stream'] == 'instrs':
         rq = case['req']
         r = ctx.driver.ask(rq)
@@ -574,4 +1102,6 @@ def replay(ctx, payload):
     return res
 
 
+# eh-set-loc-encoding (status known): the `setloc` stream generates the class on purpose, checks library == model on it and the
+# two facts the theorems state about it, and never compares it with the LSB split — so no predicate is needed to excuse a report.
 FINDINGS = {}
